@@ -46,6 +46,19 @@ PROPS = {
                 "strict prefixes of valid frames must be rejected. Distinct = distinct operation lines.",
         "assumptions": CODEC_ASSUME + ["OAP/Spec/Layout.lean is written from the layout quoted in the property (the online protocol document is not reachable offline)"],
     },
+    "C03": {
+        "kind": "codec", "modules": ["OAP.Props.C03"], "gens": ["C03"],
+        "rule": "(a) random operation sequences (write, read, peek, retrieve, peekUintN, peekAll; capacities 1..16, NewWithData) on the real ring buffer "
+                "vs the Lean ring model, comparing returned bytes and the observable geometry (length, capacity, emptiness, lengths of PeekAll's two "
+                "slices) after every operation, with a shadow byte queue as the direct statement of the property; (b) sequences of 1-4 valid frames "
+                "(+ an optional strict prefix of a further frame) built with an independent spec encoder, fed to the real streaming decoder under: "
+                "every two-chunk cut of the first and last frame, whole, all-1-byte and random partitions, ring capacities {1,2,3,5,8,13,16,64,4096}, "
+                "read/write offsets moved to 0..cap, and every wrap offset of every header field for each type and version; per call the "
+                "(packet|more|err) result and ring length are compared with the model, and the delivered packets with the isolated one-shot decode of "
+                "each frame. Distinct = distinct operation lines.",
+        "assumptions": CODEC_ASSUME + ["the ring buffer (github.com/Allenxuxu/ringbuffer v0.0.11) is a dependency: modelled after its source and compared operation by operation",
+                                       "connection-level part (TCP read segmentation) is exercised by the client scenario checks, not proved"],
+    },
 }
 
 
